@@ -309,3 +309,23 @@ def _child_main(tool, argv, cwd, fault, knobs, logpath, count_deep):
     if code is None:
         code = 0
     return int(code) if 0 <= int(code) < 64 else 63
+
+
+def run_tool_cold(tool, argv, cwd, hashseed, ambient=0, kill_after_saves=None):
+    """Run the tool once in a FRESH interpreter with its own PYTHONHASHSEED (string hashing is salted per process in
+    real use; the forked children all share the harness's pinned salt). Returns {"exit": code}."""
+    import subprocess
+
+    from sim.core import env
+
+    e = dict(os.environ)
+    e["PYTHONHASHSEED"] = str(int(hashseed))
+    e["VERIF_PINNED"] = "1"
+    e["OMP_NUM_THREADS"] = "1"
+    e["PYTHONPATH"] = env.VERIF_DIR + os.pathsep + e.get("PYTHONPATH", "")
+    spec = {"tool": tool, "argv": list(argv), "cwd": cwd, "ambient": ambient, "kill_after_saves": kill_after_saves}
+    with open(os.path.join(cwd, "stderr.txt"), "ab") as err:
+        p = subprocess.run([sys.executable, "-m", "sim.clisim.cold", json.dumps(spec)], env=e, cwd=env.VERIF_DIR,
+                           stdout=err, stderr=err, timeout=600)
+    return {"exit": p.returncode if p.returncode >= 0 else -p.returncode, "events": [], "points": None, "killed": None,
+            "cpoints": 0}
